@@ -94,6 +94,8 @@ func (f GField) tag() reflect.StructTag {
 	t := f.TagName
 	if f.Dash {
 		t = "-"
+	} else if t == "-" && !f.Omit && !f.Str {
+		t = "-," // a bare "-" would mean: skip the field
 	}
 	if f.Omit {
 		t += ",omitempty"
@@ -122,6 +124,9 @@ func genGTy(r *Rng, depth int, allowStruct bool) *GTy {
 	case k < 5:
 		return &GTy{Kind: "i", rt: intTypes[r.Intn(len(intTypes))]}
 	case k < 6:
+		if r.Chance(35) {
+			return &GTy{Kind: "f", rt: reflect.TypeOf(float32(0))}
+		}
 		return &GTy{Kind: "f", rt: reflect.TypeOf(float64(0))}
 	case k < 8:
 		return &GTy{Kind: "s", rt: reflect.TypeOf("")}
@@ -204,6 +209,8 @@ func genStructTy(r *Rng, depth int, allowEmbed bool) *GTy {
 		case 4:
 			if r.Chance(40) {
 				f.TagHas, f.Dash = true, true
+			} else if r.Chance(30) && !keys["-"] {
+				f.TagHas, f.TagName = true, "-" // the tag "-," : a member named "-"
 			}
 		case 5:
 			if f.T.Kind == "i" || f.T.Kind == "b" || f.T.Kind == "f" {
@@ -265,11 +272,15 @@ func genGValIn(r *Rng, t *GTy, depth int, inMap bool) (reflect.Value, string) {
 		}
 		return v, "i" + strconv.FormatInt(n, 10)
 	case "f":
-		f := []float64{0, 1.5, -2.25, 3}[r.Intn(4)]
+		f := []float64{0, 1.5, -2.25, 3, 0.1, 2.7}[r.Intn(6)]
 		if inMap && f == 0 {
 			f = 1.5
 		}
 		v.SetFloat(f)
+		if t.rt.Kind() == reflect.Float32 {
+			// the shortest text that reads back as this float32 is what every encoder must write
+			return v, "d" + strconv.FormatFloat(float64(float32(f)), 'g', -1, 32)
+		}
 		return v, fmtFloat(f)
 	case "s":
 		s := r.Pick([]string{"", "", "a", "xy", "<&>"})
@@ -502,8 +513,10 @@ func suiteStruct(tier string, seed uint64, model string) *Report {
 			}
 			return parsedShow(b.String(), false)
 		}), specW)
-		check("sen.String", safe(func() string { oo := o; return parsedShow(sen.String(c.arg(), &oo), true) }), specW)
-		check("sen.String/indent", safe(func() string { oo := o; oo.Indent = 2; return parsedShow(sen.String(c.arg(), &oo), true) }), specW)
+		if !(c.flag[0] && strings.Contains(c.ty.Sexp(), " 1 2d ")) { // a member named "-" is written bare by sen (recorded C10 finding)
+			check("sen.String", safe(func() string { oo := o; return parsedShow(sen.String(c.arg(), &oo), true) }), specW)
+			check("sen.String/indent", safe(func() string { oo := o; oo.Indent = 2; return parsedShow(sen.String(c.arg(), &oo), true) }), specW)
+		}
 		check("pretty.JSON", safe(func() string {
 			oo := o
 			return parsedShow(pretty.JSON(c.arg(), &oo, 60.2), false)
